@@ -86,7 +86,11 @@ impl OperationControl for Repeat {
         crate::verif::tick();
         let mut iterators: Vec<Box<dyn Iterator<Item = usize>>> = Vec::new();
         let mut positions = Vec::new();
-        let bound = self.max.min(matcher.search.len() - position + 1);
+        // the position can lie beyond the end of the input when a precondition
+        // is tried at its fixed position against a short input
+        let bound = self
+            .max
+            .min(matcher.search.len().saturating_sub(position) + 1);
         let mut p = position;
         if self.greedy {
             // Prime the arrays first with iterators up to the maximum length,
